@@ -1,5 +1,7 @@
 CONSTANTS
   Tier = "q"
+  PointerReceiverMarshaller <- NoDeviation
+  Families <- AllFamilies
 INIT Init
 NEXT Next
 INVARIANTS
@@ -12,6 +14,8 @@ INVARIANTS
   MdFixedPoint
   MdPreserves
   EsdFixedPoint
+  GeneratedReparses
+  SlotsRoundTrip
   ExactlyOneOutcome
   Emit
 CHECK_DEADLOCK FALSE
